@@ -78,7 +78,7 @@ func (f *TMemoryOutputBuffer) WriteByte(c byte) error {
 // Reset clears the buffer
 func (f *TMemoryOutputBuffer) Reset() {
 	f.TMemoryBuffer.Reset()
-	f.Write(emptyFrameSize)
+	f.TMemoryBuffer.Write(emptyFrameSize)
 }
 
 // Bytes retrieves the framed contents of the buffer.
